@@ -4,10 +4,10 @@ CONSTANTS
   KeyRegime = "drkey"
   CheckSrcHost = TRUE
   MaxDatagrams = 2
-  CIAs <- CIAs2
-  CHosts <- CHosts2
-  EpochLen = 1
-  MaxClock = 1
+  CIAs <- CIAsE
+  CHosts <- CHostsE
+  EpochLen = 3
+  MaxClock = 5
   Grace = 0
   KeepPathType = FALSE
   Modes <- ModesK
@@ -20,7 +20,7 @@ CONSTANTS
   PathExts <- PathExtsK
   RespExts <- RespExts1
   Pls <- PlsK
-  ReqAuths <- ReqAuthsK
+  ReqAuths <- ReqAuthsE2
   RespMuts <- RespMutsK
 INVARIANTS TypeOK MacSound AuthReplyVerifies ReplyAddressing ForwardRule AtMostOne EmitSeq
 CONSTRAINT KeysOnly
